@@ -128,6 +128,7 @@ func e2eExecute(x *explore.Exec, w *e2eWorld, sc e2eScenario, only int) e2eRun {
 		return a
 	}
 	recs := make([]*httptest.ResponseRecorder, len(reqs))
+	panicked := make([]string, len(reqs))
 	run := e2eRun{}
 	run.s = sched.Run(x, func(s *sched.Sched) { s.FineGrained = sc.Fine }, func(s *sched.Sched) {
 		e.Auth.Before = func(c *harness.AuthCall) {
@@ -138,6 +139,17 @@ func e2eExecute(x *explore.Exec, w *e2eWorld, sc e2eScenario, only int) e2eRun {
 			i, p := i, p
 			s.Go(p.tag, func() {
 				rec := httptest.NewRecorder()
+				defer func() {
+					// like net/http's server: a request whose handler panics dies, the process and the other
+					// requests go on (with whatever the panic left behind)
+					if r := recover(); r != nil {
+						if sched.IsControl(r) {
+							panic(r)
+						}
+						panicked[i] = fmt.Sprint(r)
+						recs[i] = httptest.NewRecorder()
+					}
+				}()
 				e.Handler.ServeHTTP(rec, p.req)
 				recs[i] = rec
 			})
@@ -151,6 +163,10 @@ func e2eExecute(x *explore.Exec, w *e2eWorld, sc e2eScenario, only int) e2eRun {
 	for i, p := range reqs {
 		if recs[i] == nil {
 			run.obs = append(run.obs, e2eObs{Status: -1, Cookie: "(request did not finish)"})
+			continue
+		}
+		if panicked[i] != "" {
+			run.obs = append(run.obs, e2eObs{Status: -2, Cookie: "(the handler panicked: " + panicked[i] + ")"})
 			continue
 		}
 		var mine []harness.BackendHit
@@ -195,6 +211,9 @@ func e2eScenarios() []e2eScenario {
 		case "validate":
 			if strings.Contains(tok, "revoked") {
 				return ans(401, "")
+			}
+			if strings.Contains(tok, "unreachable") {
+				return harness.AuthAnswer{Reset: true} // the connection to the authenticator fails
 			}
 			return ans(200, "")
 		case "profile":
@@ -262,6 +281,12 @@ func e2eScenarios() []e2eScenario {
 			{Name: "younger", Host: hostA, Prepare: withCookie("/private/2", func() *sessions.SessionState { return sess(hostA, "alice@allowed.test", "good-token", true) })},
 		}},
 		// two callbacks carrying the same code on two hosts of one rewrite-routed upstream
+		// one session presented twice while the authenticator cannot be reached for its revalidation: both
+		// requests end (as each does alone), neither waits for ever
+		{Name: "e2e/one-session-twice-authenticator-unreachable", YAML: single, Answer: answer, Bound: -1, Reqs: []e2eReq{
+			{Name: "first", Host: hostA, Prepare: withCookie("/private/1", func() *sessions.SessionState { return sess(hostA, "alice@allowed.test", "unreachable-token", false) })},
+			{Name: "second", Host: hostA, Prepare: withCookie("/private/2", func() *sessions.SessionState { return sess(hostA, "alice@allowed.test", "unreachable-token", false) })},
+		}},
 		{Name: "e2e/callbacks-same-code-two-hosts-statement-granularity", YAML: rewrite, Answer: answer, Fine: true, Bound: 2, Reqs: []e2eReq{
 			{Name: "host-a", Host: "foo-a.sso.test", Prepare: callback("foo-a.sso.test")},
 			{Name: "host-b", Host: "foo-b.sso.test", Prepare: callback("foo-b.sso.test")},
@@ -282,18 +307,31 @@ func c16RunE2E(c *fw.Ctx) {
 			if w != nil {
 				w.e.Close()
 			}
-			e, err := harness.NewProxyEnv(harness.ProxyOpts{YAML: sc.YAML, Backends: []string{"a", "b"}, TemplateVars: map[string]string{}, InMemoryAuth: true, Valid: time.Minute})
-			if err != nil {
-				panic(explore.HarnessError{Msg: "e2e: " + err.Error()})
+			newEnv := func() *harness.ProxyEnv {
+				e, err := harness.NewProxyEnv(harness.ProxyOpts{YAML: sc.YAML, Backends: []string{"a", "b"}, TemplateVars: map[string]string{}, InMemoryAuth: true, Valid: time.Minute})
+				if err != nil {
+					panic(explore.HarnessError{Msg: "e2e: " + err.Error()})
+				}
+				return e
 			}
-			w = &e2eWorld{e: e}
+			// the reference first: each request on its own, on a proxy nothing else has touched (the in-memory
+			// back channel is process-wide and belongs to the environment created last, so the shared
+			// environment is created after these)
 			solo = nil
 			for i := range sc.Reqs {
-				r := e2eExecute(explore.NewExec(nil), w, sc, i)
+				se := newEnv()
+				r := e2eExecute(explore.NewExec(nil), &e2eWorld{e: se}, sc, i)
+				se.Close()
 				if r.s.Panic != nil || r.s.Deadlock || len(r.obs) != 1 {
 					panic(explore.HarnessError{Msg: fmt.Sprintf("e2e: the solo run of %s/%s failed: panic=%v deadlock=%v", sc.Name, sc.Reqs[i].Name, r.s.Panic, r.s.Deadlock)})
 				}
 				solo = append(solo, r.obs[0])
+			}
+			w = &e2eWorld{e: newEnv()}
+			// warm the shared environment up (whatever the services initialise on first use happens now, not in
+			// the first explored execution, which would then be longer than its successors); outcomes are ignored
+			for i := range sc.Reqs {
+				e2eExecute(explore.NewExec(nil), w, sc, i)
 			}
 		}
 		st := drive(c, sc.Name, sc.Bound, func(x *explore.Exec, owned bool) {
